@@ -224,14 +224,18 @@ func main() {
 							return terms.Eval(tm["xwing_reject"], env)
 						}
 					}
+					var lnmu sync.Mutex
 					run := func(ct []byte) {
-						ln.Total++
 						var s1, s2 []byte
 						var e1, e2 error
 						oc := vlib.Safe(20*time.Second, func() {
 							s1, e1 = sch.Decapsulate(kc.sk, ct)
 							s2, e2 = sch.Decapsulate(kc.sk, ct)
 						})
+						ex := expect(ct)
+						lnmu.Lock()
+						defer lnmu.Unlock()
+						ln.Total++
 						switch {
 						case oc.Panic != "" || oc.Timeout:
 							ln.Panic++
@@ -242,7 +246,6 @@ func main() {
 						case (e1 == nil) != (e2 == nil) || !bytes.Equal(s1, s2):
 							ln.Nondet++
 						}
-						ex := expect(ct)
 						switch {
 						case e1 != nil:
 							ln.Error++
@@ -278,6 +281,22 @@ func main() {
 						if r.Kind == "fo-frodo" && *frodo > 0 && len(bits) > *frodo {
 							rng.Shuffle(len(bits), func(i, j int) { bits[i], bits[j] = bits[j], bits[i] })
 							bits = bits[:*frodo]
+						}
+						if len(bits) > 4000 { // FrodoKEM's 77 760 positions: spread over workers (read-only use of the key)
+							var fw sync.WaitGroup
+							for wk := 0; wk < 12; wk++ {
+								fw.Add(1)
+								go func(wk int) {
+									defer fw.Done()
+									for j := wk; j < len(bits); j += 12 {
+										c := append([]byte{}, kc.ct...)
+										c[r.Off+bits[j]/8] ^= 1 << uint(bits[j]%8)
+										run(c)
+									}
+								}(wk)
+							}
+							fw.Wait()
+							break
 						}
 						for _, b := range bits {
 							c := append([]byte{}, kc.ct...)
